@@ -141,4 +141,5 @@ theorem cliMainCode_eq (argv : List String) (adj : String) (aff : Option String)
     · have hst : stoi (some sd) = Except.error s!"stoi({sd})" := by simp [stoi, hn', throw, throwThe, MonadExceptOf.throw]
       simp [hs, hst, hn', SameOutcome]
 
+
 end MTProps.CodeCli
